@@ -2877,7 +2877,9 @@ impl Connection {
                 Frame::Ack(ack) => {
                     self.on_ack_received(now, packet.header.space(), ack)?;
                 }
-                Frame::Close(reason) => {
+                // An application close (0x1d) cannot be carried by Initial or Handshake packets; a
+                // peer that has to close this early sends a transport close instead
+                Frame::Close(reason @ Close::Connection(_)) => {
                     self.error = Some(reason.into());
                     self.state = State::Draining;
                     return Ok(());
